@@ -2,9 +2,21 @@
 From Coq Require Import NArith ZArith List String.
 From BU Require Import Base.Exn Base.Val Base.Bytes Gen.Consts Extract.ApiCommon.
 From BU Require Import Model.Codecs.
-From BU Require Model.IntBytes.
+From BU Require Model.IntBytes Model.ConvertBits.
 Import ListNotations.
 Open Scope string_scope.
+
+(* a list of ints arrives as bytes/text (VB) or, with large members, as VL of VN *)
+Fixpoint vals_N (l : list val) : option (list N) :=
+  match l with
+  | [] => Some []
+  | VN n :: t => option_map (cons n) (vals_N t)
+  | _ => None
+  end.
+Definition as_list (v : val) : option (list N) :=
+  match v with VB l => Some l | VL l => vals_N l | _ => None end.
+Definition ropt (r : res (option (list N))) : res val :=
+  rmap (fun o => match o with Some l => VL [VB l] | None => VL [] end) r.
 
 Definition api (ask : string -> list val -> val) : list api_entry := [
   ("xmr_encode", fun a => match a with [VB b] => rb (xmr_encode b) | _ => bad_call end);
@@ -23,5 +35,14 @@ Definition api (ask : string -> list val -> val) : list api_entry := [
   ("bytes_from_binstr", fun a => match a with [VB s; VN pad] =>
       rb (IntBytes.bytes_from_binstr s (N.to_nat pad)) | _ => bad_call end);
   ("hex_encode", fun a => match a with [VB b] => Ok (VB (IntBytes.to_hex_string b)) | _ => bad_call end);
-  ("hex_decode", fun a => match a with [VB s] => rb (IntBytes.from_hex_string s) | _ => bad_call end)
+  ("hex_decode", fun a => match a with [VB s] => rb (IntBytes.from_hex_string s) | _ => bad_call end);
+  (* Bech32BaseUtils *)
+  ("to_base32", fun a => match a with [v] =>
+      match as_list v with Some l => rb (to_base32 l) | None => bad_call end | _ => bad_call end);
+  ("from_base32", fun a => match a with [v] =>
+      match as_list v with Some l => rb (from_base32 l) | None => bad_call end | _ => bad_call end);
+  ("convert_bits", fun a => match a with [v; VN fb; VN tb; VN pad] =>
+      match as_list v with
+      | Some l => ropt (ConvertBits.convert_bits fb tb l (negb (N.eqb pad 0)))
+      | None => bad_call end | _ => bad_call end)
 ].
